@@ -210,3 +210,11 @@ def run(ctx, rep):
            'log_size_bytes', 'index_size_bytes')
     sf_.check_constructors(ctx, rep, 'R16.i', {k: CNT for k in ('Segment', 'Partition', 'Topic', 'Stream')})
 
+    # ------------------------------------------------------------ R16.j a rejected create request does not move the counters
+    from props.c06 import rejections_precede_construction
+    rejections_precede_construction(ctx, rep, 'R16.j')
+
+    # ------------------------------------------------------------ R16.k the amount a segment will subtract has its confirmed writers
+    rep.rule('R16.k', 'Segment.size_bytes (what delete subtracts from the three size counters and what get_messages_count tests for zero) is assigned only by the loader, with its confirmed form; everywhere else it only accumulates what was added to the parents (R16.c)', floor=1, analysis='A1/A9')
+    sf.check(ctx, rep, 'R16.k', part_fields=(), seg_fields=('size_bytes',))
+
